@@ -1730,11 +1730,7 @@ func matrixSequences(c *Ctx, mat *hsMaterial) (cases []Case) {
 					ca := []string{"REQUIRED", "PREFERRED", "OPTIONAL", "REQUIRED"}[(k+i)%4]
 					ce := levels[(k+2*i)%4]
 					sh := pairShape{name: "seq:" + st.name, cm: st.cm, sm: fam.sm, cc: aes, scs: aes, ok: st.ok, nat: st.nat, ct: st.ct, st: mat.srvToken(), policy: policy}
-					t0 := time.Now()
 					v := runPairCell(sh, ca, sa, ce, se, []int{60007, 0, security.NoCommand}[(k+i)%3])
-					if d := time.Since(t0); d > time.Second && os.Getenv("VERIF_DEBUG") != "" {
-						fmt.Fprintf(os.Stderr, "SLOW %v %s -> %s\n", d, v.op, v.real)
-					}
 					cases = append(cases, Case{Label: fmt.Sprintf("sequence step %d/%d %s", i+1, len(seq), st.name), Ops: []string{v.op}, Real: []string{v.real}})
 					c.Distinct(strings.Join(append(append([]string{}, history...), v.op), " ; "), true)
 					c.Count("sequence-step:" + st.name)
